@@ -95,7 +95,7 @@ func (i UnixStamp) MarshalJSON() ([]byte, error) {
 // UnmarshalJSON unmarshal json
 func (i *UnixStamp) UnmarshalJSON(b []byte) error {
 	lb := len(b)
-	if lb <= 2 {
+	if lb <= 2 || b[0] != '"' || b[lb-1] != '"' {
 		return ErrInvalidInt64Js
 	}
 
